@@ -141,7 +141,7 @@ func (r *refResult) acceptList() []string {
 	m := map[string]bool{}
 	for _, l := range r.Leaves {
 		if l.Kind == lAny {
-			m["any(pass | rewritten without addresses, CNAME on the cycle path)"] = true
+			m["any(pass | rewritten without addresses, CNAME to another name on the cycle path)"] = true
 			continue
 		}
 		m[l.key()] = true
@@ -285,7 +285,10 @@ func (r *refRun) walk(cur, canon string, depth int, visited []string, shape stri
 				for _, v := range visited[1:] {
 					r.res.Chain[v] = true
 				}
-				r.res.Chain[ans] = true
+				if ans != r.q {
+					// A reply "q CNAME q" is never acceptable.
+					r.res.Chain[ans] = true
+				}
 				r.add(leaf{Kind: lAny}, shape+st+"cycle")
 			default:
 				nv := append(append([]string{}, visited...), ans)
